@@ -126,6 +126,7 @@ def mapping(cur_fn, ref_fn) -> dict[str, str]:
                     votes.setdefault(x.id, {}).setdefault(y.id, 0)
                     votes[x.id][y.id] += 1
     out: dict[str, str] = {}
+    merged_with_self: set[str] = set()
     groups: dict[str, list[str]] = {}
     for cur, cand in votes.items():
         if len(cand) != 1:
@@ -151,6 +152,8 @@ def mapping(cur_fn, ref_fn) -> dict[str, str]:
         if all(ranges[i][1] < ranges[i + 1][0] for i in range(len(ranges) - 1)):
             for c in curs:
                 out[c] = ref
+            if ref in curs:
+                merged_with_self.add(ref)     # the reference name itself is one of the (disjoint) ranges
     # never rename onto a name that is live in the function under a different role
     params_c = _params(cur_fn)
     used = {n.id for n in ast.walk(cur_fn) if isinstance(n, ast.Name)}
@@ -158,7 +161,7 @@ def mapping(cur_fn, ref_fn) -> dict[str, str]:
     # capture avoidance, to a fixed point: a target name that is used in this function must itself be
     # renamed away by the (simultaneous) substitution, otherwise two distinct variables would be merged
     while True:
-        bad = [cur for cur, ref in safe.items() if ref in used and ref not in safe]
+        bad = [cur for cur, ref in safe.items() if ref in used and ref not in safe and ref not in merged_with_self]
         if not bad:
             break
         for cur in bad:
